@@ -18,6 +18,3 @@ type Spec_CriteriaOmissionParams struct {
 type Spec_CriteriaOmissionResult struct {
 	OmittedCriteria model.Criteria `json:"omittedCriteria"`
 }
-
-type Spec_CriteriaOmissionParams struct {
-}
